@@ -129,7 +129,7 @@ def run(ctx):
     ctx.rule('R-C18i', 'per-thread module state that owns library-allocated records has a tear-down hook visiting them; thread init and '
                        'tear-down walk the same registration list', floor=6)
     ctx.rule('R-C18a.radix', 'timer radix tree tear-down frees exactly the library\'s own nodes: a subtree handed to the recursive release is '
-                             'given its true level (one below the node it hangs off), the recursion descends only above the leaves, '
+                             'given its true level (one below the node it hangs off), the recursion descends only above the leaves and at every level above them, '
                              'and tear-down removes levels until the depth is zero', floor=4)
     ctx.rule('R-C18j', 'OWNED-BLOCK: a library-acquired block whose address is kept in a private field of a user-visible object is owned '
                        'by that object alone: whenever the field is overwritten, the block it held was released (free) or handed to a '
@@ -2152,6 +2152,41 @@ def radix(ctx):
             if not (atoms_imply(A, '!=', pl, str(-o)) or atoms_imply(A, '>', pl, str(-o)) or atoms_imply(A, '>=', pl, str(1 - o))):
                 okr = False
                 why.append('descent not guarded by %s != %d' % (pl, -o))
+        # ... and at every level above the leaves: the guard of the descent is not stronger than "the node is not a leaf".
+        # Every comparison of the level parameter with a constant that holds at a descent site is evaluated at the inner
+        # levels 1, 2, 3 and 40 of the parent; one that is false there skips the children of such a node, which are then
+        # never freed.  Not judged when the function also frees child slots directly (a separate last-level loop).
+        direct = any(e['ev'] == 'call' and is_call(e, 'free') and e['args'] and _child_of(V.resolve(e['args'][0])) is not None
+                     for e in g.events())
+        okw, whyw = True, []
+        CMP = {'==': lambda a, b: a == b, '!=': lambda a, b: a != b, '<': lambda a, b: a < b, '<=': lambda a, b: a <= b,
+               '>': lambda a, b: a > b, '>=': lambda a, b: a >= b}
+        for e in rec:
+            tgt = freer_of(f, e)
+            if tgt is None or direct:
+                continue
+            S = offs.get((e['_b'], e['_i']), {})
+            x = e['args'][tgt[3].index(tgt[1])]
+            par = _child_of(V.resolve(x)) if _child_of(x) is None else _child_of(x)
+            o = node_off(par, S) if par is not None else None
+            if o is None:
+                continue
+            for a in V.at(e):
+                if a[1] != pl or a[0] not in CMP:
+                    continue
+                try:
+                    c0 = int(a[2])
+                except (ValueError, TypeError):
+                    continue
+                for parent_level in (1, 2, 3, 40):
+                    if not CMP[a[0]](parent_level - o, c0):
+                        okw = False
+                        whyw.append('descent at %s requires %s %s %s: the children of a node at level %d are not released'
+                                    % (e['loc'].split('/')[-1], pl, a[0], a[2], parent_level))
+                        break
+        ctx.ob('R-C18a.radix', 'subtree-release:descends-at-every-inner-level', okw and (bool(sites_) or direct), loc=f.loc,
+               detail='; '.join(whyw) or ('the guard of the recursion holds at every level above the leaves (evaluated at levels 1, 2, 3, 40)'
+                                          if not direct else 'not judged: child slots are also freed directly'), fn=f.q)
         ctx.ob('R-C18a.radix', 'subtree-release:descends-only-above-leaves', okr and bool(sites_), loc=f.loc,
                detail='; '.join(why) or 'recursion into child[i] only where the level is non-zero and with level - 1 (%d sites)' % len(sites_), fn=f.q)
         own = must_pass(g, lambda e: e['ev'] == 'call' and is_call(e, 'free') and e['args'] and var_name(V.resolve(e['args'][0])) == pn)
